@@ -27,9 +27,10 @@ def main():
         c = m.get("caught_by") or "**missed**"
         if m.get("caught_by"):
             caught += 1
-        out.append("| %s | %s | %s — needs: %s | %s (quick) | `%s` |" % (
-            name, m["property"], short(m.get("summary"), 230), short(m.get("needs"), 200), c, m.get("signature") or "-"))
-    out += ["", "%d of %d seeded changes are caught by the quick check of their property." % (caught, len(rows)), ""]
+        out.append("| %s | %s | %s — needs: %s | %s (%s) | `%s` |" % (
+            name, m["property"], short(m.get("summary"), 230), short(m.get("needs"), 200), c, m.get("caught_tier", "quick"), m.get("signature") or "-"))
+    own_quick = sum(1 for _, m in rows if m.get("caught_by") == m["property"] and m.get("caught_tier", "quick") == "quick")
+    out += ["", "%d of %d seeded changes are caught; %d by the quick check of their own property." % (caught, len(rows), own_quick), ""]
     open(os.path.join(HERE, "seeded", "README.md"), "w").write("\n".join(out))
     print(caught, len(rows))
 
